@@ -219,6 +219,8 @@ struct World {
 
 Program PROG;
 int NT = 0;            // program threads
+bool g_galg = false;       // guard-algebra BFS: thread 0 publishes a canonical key of its final state
+uint64_t g_galg_key = 0;
 bool g_epilogue = true;
 const void *g_tls_node[kMaxT + 1];  // MCS: per-thread cached node pointer (published at points)
 
@@ -674,6 +676,101 @@ struct Interp {
     return h;
   }
 
+  // Canonical key of everything the future of this thread can depend on, for the breadth-first search over
+  // single-thread operation histories (--galg): the ownership model per guard slot, the *object representation* of
+  // every guard (hidden state such as cached versions or stale pointers makes histories distinct that the
+  // ownership model would merge), both lock words and ghost versions. Pointers into the lock array or into arena
+  // blocks (MCS queue nodes) are replaced by position-independent tags so that allocation order does not matter.
+  struct Canon {
+    const void *seen[16];
+    int n = 0;
+    uint64_t
+    Ptr(uint64_t v, int depth)
+    {
+      const auto *p = reinterpret_cast<const char *>(v);
+      const auto *lo = reinterpret_cast<const char *>(&W->locks[0]);
+      if (p >= lo && p < lo + sizeof(W->locks)) return 0xA000000000000000ULL | static_cast<uint64_t>(p - lo);
+      if (v < 4096 || (v >> 47U) != 0) return v;
+      auto bi = vs::BlockOf(p);
+      if (bi.st == vs::B_NONE) return v;
+      int idx = -1;
+      for (int i = 0; i < n; ++i)
+        if (seen[i] == bi.base) idx = i;
+      const bool fresh = idx < 0;
+      if (fresh && n < 16) {
+        idx = n;
+        seen[n++] = bi.base;
+      }
+      uint64_t h = vs::Mix(0xB10C, (static_cast<uint64_t>(idx + 1) << 8) | static_cast<uint64_t>(bi.st));
+      h = vs::Mix(h, static_cast<uint64_t>(p - static_cast<const char *>(bi.base)));
+      if (fresh && bi.st == vs::B_LIVE && depth < 3 && bi.size >= 8 && bi.size <= 64) {
+        for (size_t i = 0; i + 8 <= bi.size; i += 8) {
+          uint64_t w = 0;
+          memcpy(&w, static_cast<const char *>(bi.base) + i, 8);
+          h = vs::Mix(h, Word64(w, depth + 1));
+        }
+      }
+      return h;
+    }
+    uint64_t
+    Word64(uint64_t w, int depth)
+    {
+#if LK == 2
+      // MCS words: flags and counter above bit 47, a node pointer below
+      return vs::Mix(w >> 47U, Ptr(w & ((1ULL << 47U) - 1ULL), depth));
+#else
+      return Ptr(w, depth);
+#endif
+    }
+  };
+
+  template <class SlotT>
+  uint64_t
+  CanonSlot(Canon &c, SlotT &sl)
+  {
+    uint64_t h = sl.engaged ? 1 : 2;
+    if (sl.engaged)
+      for (size_t i = 0; i < sizeof sl.buf; i += 8) {
+        uint64_t v = 0;
+        memcpy(&v, sl.buf + i, std::min<size_t>(8, sizeof sl.buf - i));
+        h = vs::Mix(h, c.Ptr(v, 0));
+      }
+    return h;
+  }
+
+  uint64_t
+  CanonKey()
+  {
+    Canon c;
+    uint64_t h = 0x6A16;
+    for (int l = 0; l < kLocks; ++l) {
+      h = vs::Mix(h, c.Word64(Word(l), 0));
+      h = vs::Mix(h, GH->ghost_ver[l]);
+    }
+    for (int s = 0; s < kSlots; ++s) {
+      h = vs::Mix(h, CanonSlot(c, S[s]));
+      h = vs::Mix(h, CanonSlot(c, X6[s]));
+      h = vs::Mix(h, CanonSlot(c, X[s]));
+#if LK == 1
+      h = vs::Mix(h, CanonSlot(c, C[s]));
+#endif
+      for (int k = 0; k < 4; ++k) {
+        const int ph = tm.own[k][s];
+        const uint64_t own = ph < 0 ? 0 : 1 + static_cast<uint64_t>(GH->phases[ph].lock) * 4 + GH->phases[ph].mode;
+        h = vs::Mix(h, own * 2 + tm.engaged[k][s]);
+      }
+      h = vs::Mix(h, tm.own[2][s] >= 0 ? (static_cast<uint64_t>(tm.xacq_ver[s]) << 32) | tm.xnew_ver[s] : 0);
+    }
+#if LK == 1
+    h = vs::Mix(h, opt_valid ? (static_cast<uint64_t>(opt.GetVersion()) << 2) | static_cast<uint64_t>(tm.opt_lock) << 1 | 1U : 0);
+#endif
+#if LK == 2
+    h = vs::Mix(h, c.Ptr(reinterpret_cast<uint64_t>(CachedNodeOf<Lock>()), 0));
+    h = vs::Mix(h, vs::LiveBlocksOfSize(sizeof(Lock)));
+#endif
+    return h;
+  }
+
   void
   ExpectBool(const char *what, bool actual, bool expected)
   {
@@ -806,13 +903,11 @@ struct Interp {
     tm.pc = static_cast<int>(ops.size());
     vs::SetCall("script-end");
     vs::Boundary(Digest());
+    if (g_galg && tid == 0) g_galg_key = CanonKey();
     // leftover guards are destroyed by ~Slot (scripts are expected to release explicitly)
-    for (int s = 0; s < kSlots; ++s) {
-      DestroySlot(0, s, "end");
-      DestroySlot(1, s, "end");
-      DestroySlot(2, s, "end");
-      DestroySlot(3, s, "end");
-    }
+    // shared grants first: on an MCSLock the release of a SIX grant waits for the shared grants that preceded it
+    for (int kind : {0, 3, 1, 2})
+      for (int s = 0; s < kSlots; ++s) DestroySlot(kind, s, "end");
   }
 
   void
@@ -862,12 +957,13 @@ void
 Interp::Exec(const OpCode &o)
 {
   const std::string &mn = o.mn;
-  const uint32_t w0 = vs::Stat(tid).eff_writes;
+  uint32_t w0 = vs::Stat(tid).eff_writes;  // re-sampled after the release of a guard that the operation overwrites
   if (mn == "LS" || mn == "L6" || mn == "LX") {
     const int l = Lk(o.a), s = Sl(o.b);
     const Mode m = mn == "LS" ? M_S : (mn == "L6" ? M_SIX : M_X);
     const int kind = static_cast<int>(m);
     DestroySlot(kind, s, "overwrite");
+    w0 = vs::Stat(tid).eff_writes;
     StartRequest(l, m);
     if (m == M_S) {
       S[s].emplace(W->locks[l].LockS());
@@ -893,6 +989,7 @@ Interp::Exec(const OpCode &o)
     const int kind = mn == "ES" ? 0 : (mn == "E6" ? 1 : 2);
     const int s = Sl(o.a);
     DestroySlot(kind, s, "overwrite");
+    w0 = vs::Stat(tid).eff_writes;
     if (kind == 0) S[s].emplace();
     if (kind == 1) X6[s].emplace();
     if (kind == 2) X[s].emplace();
@@ -928,6 +1025,7 @@ Interp::Exec(const OpCode &o)
     const int s = Sl(o.a), d = Sl(o.b);
     if (!tm.engaged[kind][s] || s == d) return;
     DestroySlot(kind, d, "overwrite");
+    w0 = vs::Stat(tid).eff_writes;
     if (kind == 0) S[d].emplace(std::move(*S[s]));
     if (kind == 1) X6[d].emplace(std::move(*X6[s]));
     if (kind == 2) X[d].emplace(std::move(*X[s]));
@@ -944,6 +1042,7 @@ Interp::Exec(const OpCode &o)
     if (!tm.engaged[1][s]) return;
     const int ph = tm.own[1][s];
     DestroySlot(2, d, "overwrite");
+    w0 = vs::Stat(tid).eff_writes;
     long before = tm.last_read;
     (void)before;
     if (ph >= 0) vs::HbMark(tid, GH->phases[ph].bit);  // the SIX phase ends (program order) here
@@ -980,6 +1079,7 @@ Interp::Exec(const OpCode &o)
     if (!tm.engaged[2][s]) return;
     const int ph = tm.own[2][s];
     DestroySlot(1, d, "overwrite");
+    w0 = vs::Stat(tid).eff_writes;
     if (ph >= 0) {
       vs::HbMark(tid, GH->phases[ph].bit);
       GH->phases[ph].conv = true;
@@ -1053,6 +1153,7 @@ Interp::Exec(const OpCode &o)
     } else {
       kind = mn == "TS" ? 0 : (mn == "T6" ? 1 : 2);
       DestroySlot(kind, d, "overwrite");
+      w0 = vs::Stat(tid).eff_writes;
       if (kind == 0) {
         S[d].emplace(opt.TryLockS());
         ok = static_cast<bool>(*S[d]);
@@ -1099,6 +1200,7 @@ Interp::Exec(const OpCode &o)
   } else if (mn == "PR") {
     const int l = Lk(o.a), s = Sl(o.b);
     DestroySlot(3, s, "overwrite");
+    w0 = vs::Stat(tid).eff_writes;
     tm.snap.valid = false;
     C[s].emplace(W->locks[l].PrepareRead());
     const bool own = static_cast<bool>(*C[s]);
@@ -1166,6 +1268,7 @@ Interp::Exec(const OpCode &o)
     const int s = Sl(o.a), d = Sl(o.b);
     if (!tm.engaged[3][s] || s == d) return;
     DestroySlot(3, d, "overwrite");
+    w0 = vs::Stat(tid).eff_writes;
     C[d].emplace(std::move(*C[s]));
     tm.engaged[3][d] = 1;
     tm.own[3][d] = tm.own[3][s];
@@ -1542,6 +1645,175 @@ Calibrate()
 }  // namespace
 
 /*----------------------------------------------------------------------------------------------
+ * guard-algebra BFS (--galg DEPTH): breadth-first search over single-thread operation histories
+ *--------------------------------------------------------------------------------------------*/
+namespace
+{
+// what the driver has to know to enumerate the operations that are *admissible* after a history (operations that
+// would make the thread wait for itself are excluded); the checking is done by the monitors, not by this model
+struct GModel {
+  int8_t sl[4][2];  // per guard kind (S, SIX, X, composite) and slot: -2 absent, -1 present but not owning, l >= 0 owning lock l
+  bool opt = false;
+  int8_t opt_lock = 0;
+  GModel() { memset(sl, -2, sizeof sl); }
+  int
+  NS(int l, int xk = -1, int xs = -1) const
+  {
+    int n = 0;
+    for (int k : {0, 3})
+      for (int s = 0; s < 2; ++s)
+        if (!(k == xk && s == xs) && sl[k][s] == l) ++n;
+    return n;
+  }
+  bool
+  Has(int k, int l, int xk = -1, int xs = -1) const
+  {
+    for (int s = 0; s < 2; ++s)
+      if (!(k == xk && s == xs) && sl[k][s] == l) return true;
+    return false;
+  }
+  bool
+  Can(int mode, int l, int xk, int xs) const
+  {
+    const bool x = Has(2, l, xk, xs), six = Has(1, l, xk, xs);
+#if LK == 2
+    if (mode == 0) return !x && !six;  // MCS: a shared request queues behind a SIX holder (it may upgrade)
+#endif
+    if (mode == 0) return !x;
+    if (mode == 1) return !x && !six;
+    return !x && !six && NS(l, xk, xs) == 0;
+  }
+  // MCS: the release of a SIX grant waits for the shared grants that were there before it, this thread's included
+  bool
+  MayEndSix(int s) const
+  {
+#if LK == 2
+    const int l = sl[1][s];
+    return l < 0 || NS(l) == 0;
+#else
+    (void)s;
+    return true;
+#endif
+  }
+  std::string
+  Str() const
+  {
+    std::string r;
+    for (auto &k : sl)
+      for (int v : k) r += static_cast<char>('c' + v);
+    r += opt ? static_cast<char>('0' + opt_lock) : '-';
+    return r;
+  }
+};
+
+struct GNode {
+  GModel m;
+  std::string hist;
+};
+
+void
+GalgSuccessors(const GNode &n, std::vector<GNode> &out)
+{
+  static const char kK[3] = {'S', '6', 'X'};
+  static const char kSl[2] = {'a', 'b'};
+  auto push = [&](const std::string &op, const GModel &m) { out.push_back(GNode{m, n.hist.empty() ? op : n.hist + " " + op}); };
+  for (int k = 0; k < 3; ++k) {
+    for (int s = 0; s < 2; ++s) {
+      // acquire (the slot is released first when it is occupied); lock 1 only into slot b
+      for (int l = 0; l < 2; ++l) {
+        if (l == 1 && s == 0) continue;
+        if (!n.m.Can(k, l, k, s)) continue;
+        if (k == 1 && !n.m.MayEndSix(s)) continue;
+        GModel m = n.m;
+        m.sl[k][s] = static_cast<int8_t>(l);
+        push(std::string("L") + kK[k] + static_cast<char>('0' + l) + kSl[s], m);
+      }
+      if (n.m.sl[k][s] != -2 && (k != 1 || n.m.MayEndSix(s))) {
+        GModel m = n.m;
+        m.sl[k][s] = -2;
+        push(std::string("D") + kK[k] + kSl[s], m);
+      }
+      if (n.m.sl[k][s] != -1 && (k != 1 || n.m.MayEndSix(s))) {  // default construction (over nothing or over an owning guard)
+        GModel m = n.m;
+        m.sl[k][s] = -1;
+        push(std::string("E") + kK[k] + kSl[s], m);
+      }
+      const int d = 1 - s;
+      if (n.m.sl[k][s] != -2 && (k != 1 || n.m.MayEndSix(d))) {
+        GModel m = n.m;
+        m.sl[k][d] = n.m.sl[k][s];
+        m.sl[k][s] = -1;
+        push(std::string("M") + kK[k] + kSl[s] + kSl[d], m);  // move assignment (an absent target is default-constructed first)
+        push(std::string("C") + kK[k] + kSl[s] + kSl[d], m);  // move construction (a present target is destroyed first)
+      }
+    }
+  }
+  for (int s = 0; s < 2; ++s)
+    for (int d = 0; d < 2; ++d) {
+      if (n.m.sl[1][s] != -2) {  // UpgradeToX: waits for every shared holder, this thread's own included
+        const int l = n.m.sl[1][s];
+        if (l < 0 || n.m.NS(l) == 0) {
+          GModel m = n.m;
+          m.sl[2][d] = n.m.sl[1][s];
+          m.sl[1][s] = -1;
+          push(std::string("UP") + kSl[s] + kSl[d], m);
+        }
+      }
+      if (n.m.sl[2][s] != -2 && n.m.MayEndSix(d)) {
+        GModel m = n.m;
+        m.sl[1][d] = n.m.sl[2][s];
+        m.sl[2][s] = -1;
+        push(std::string("DN") + kSl[s] + kSl[d], m);
+      }
+    }
+#if LK == 1
+  for (int s = 0; s < 2; ++s) {
+    if (n.m.sl[2][s] >= 0) {
+      push(std::string("SV") + kSl[s] + "p", n.m);
+      push(std::string("XG") + kSl[s], n.m);
+    }
+  }
+  if (!n.m.Has(2, 0)) {
+    GModel m = n.m;
+    m.opt = true;
+    m.opt_lock = 0;
+    push("GV0", m);
+    for (int s = 0; s < 2; ++s) {
+      GModel c = n.m;
+      if (c.sl[3][s] < 0 || true) {
+        c.sl[3][s] = -1;  // single thread: PrepareRead never has to fall back to a shared lock
+        push(std::string("PR0") + kSl[s], c);
+      }
+    }
+  }
+  if (n.m.opt && !n.m.Has(2, n.m.opt_lock)) {
+    push("VV", n.m);
+    const int l = n.m.opt_lock;
+    for (int k = 0; k < 3; ++k) {
+      if (!n.m.Can(k, l, k, 0)) continue;
+      GModel m = n.m;
+      m.sl[k][0] = static_cast<int8_t>(l);  // the carried version is current unless an exclusive section of this thread ended since: then the guard is empty
+      push(std::string("T") + kK[k] + "a", m);
+    }
+  }
+  for (int s = 0; s < 2; ++s) {
+    if (n.m.sl[3][s] != -2) {
+      GModel m = n.m;
+      m.sl[3][s] = -2;
+      push(std::string("DC") + kSl[s], m);
+      if (!n.m.Has(2, 0)) push(std::string("CV") + kSl[s], n.m);
+      GModel mv = n.m;
+      mv.sl[3][1 - s] = n.m.sl[3][s];
+      mv.sl[3][s] = -1;
+      push(std::string("MC") + kSl[s] + kSl[1 - s], mv);
+      push(std::string("CC") + kSl[s] + kSl[1 - s], mv);
+    }
+  }
+#endif
+}
+}  // namespace
+
+/*----------------------------------------------------------------------------------------------
  * driver
  *--------------------------------------------------------------------------------------------*/
 namespace
@@ -1561,6 +1833,7 @@ struct Args {
   size_t max_programs = 0;
   bool no_epilogue = false;
   bool iterate = true;
+  int galg = 0;
 };
 
 vs::Config
@@ -1614,6 +1887,8 @@ main(int argc, char **argv)
       a.max_programs = static_cast<size_t>(atol(val().c_str()));
     } else if (k == "--no-epilogue") {
       a.no_epilogue = true;
+    } else if (k == "--galg") {
+      a.galg = atoi(val().c_str());
     } else {
       fprintf(stderr, "unknown argument %s\n", k.c_str());
       return 2;
@@ -1631,6 +1906,169 @@ main(int argc, char **argv)
     for (auto &v : r.violations) printf("VIOLATION-DETAIL [%s] %s: %s\n", v.props.c_str(), v.sig.c_str(), v.msg.c_str());
     fflush(stdout);
     _exit(r.violations.empty() ? 0 : 1);
+  }
+  if (a.galg > 0) {
+    // breadth-first search over single-thread histories of guard operations. Every history is executed on fresh
+    // locks under the scheduler (one thread + the epilogue thread: one execution), judged by all monitors, and
+    // keyed by (admissibility model, canonical implementation state); only histories that reach a new key are extended.
+    FILE *out = a.out.empty() ? stdout : fopen(a.out.c_str(), "w");
+    if (!out) {
+      perror("open out");
+      return 2;
+    }
+    g_galg = true;
+    const double t0 = vs::Now();
+    std::vector<std::string> roots = {""};
+#if LK == 1
+    roots.push_back("v=fffffffe;");
+#endif
+    int rc = 0;
+    size_t total_states = 0, total_trans = 0;
+    int depth_done = a.galg;
+    bool cut = false;
+    for (auto &root : roots) {
+      std::set<std::string> seen;
+      std::vector<GNode> frontier = {GNode{GModel{}, ""}};
+      seen.insert(frontier[0].m.Str() + ":root");
+      ++total_states;
+      for (int d = 1; d <= a.galg && !frontier.empty(); ++d) {
+        std::vector<GNode> cand;
+        for (auto &n : frontier) GalgSuccessors(n, cand);
+        constexpr size_t kBatch = 48;
+        struct One {
+          bool ran = false, internal = false;
+          uint64_t key = 0, ex = 0, st = 0;
+          size_t nv = 0;
+          std::string json, err;
+        };
+        std::vector<One> ones(cand.size());
+        auto run_one = [&](const std::string &prog) -> std::string {
+          PROG = Parse(prog);
+          NT = static_cast<int>(PROG.th.size());
+          auto scn = MakeScenario();
+          auto cfg = MakeConfig(a);
+          cfg.bound = 0;
+          cfg.iterate = false;
+          g_galg_key = 0;
+          auto r = vs::Explore(scn, cfg);
+          char head[160];
+          snprintf(head, sizeof head, "%016" PRIx64 "\x01%" PRIu64 "\x01%" PRIu64 "\x01%zu\x01", g_galg_key, static_cast<uint64_t>(r.executions),
+                   static_cast<uint64_t>(r.steps), r.violations.size());
+          return std::string(head) + (r.violations.empty() ? std::string() : vs::ResultToJson(r)) + "\n";
+        };
+        auto parse_lines = [&](const std::string &txt, size_t first, size_t count) {
+          size_t pos = 0;
+          for (size_t i = 0; i < count; ++i) {
+            const size_t nl = txt.find('\n', pos);
+            if (nl == std::string::npos) break;
+            const std::string line = txt.substr(pos, nl - pos);
+            pos = nl + 1;
+            unsigned long long k = 0, e2 = 0, s2 = 0;
+            size_t nv = 0;
+            if (sscanf(line.c_str(), "%llx\x01%llu\x01%llu\x01%zu\x01", &k, &e2, &s2, &nv) != 4) break;
+            auto &o = ones[first + i];
+            o.ran = true;
+            o.key = k;
+            o.ex = e2;
+            o.st = s2;
+            o.nv = nv;
+            size_t p = 0;
+            for (int f = 0; f < 4; ++f) p = line.find('\x01', p) + 1;
+            o.json = line.substr(p);
+          }
+        };
+        bool level_cut = false;
+        {
+          std::vector<vs::Job> jobs;
+          for (size_t b = 0; b < cand.size(); b += kBatch) jobs.push_back(vs::Job{std::to_string(b), ""});
+          const double left = a.budget - (vs::Now() - t0);
+          if (left <= 0) {
+            cut = true;
+            depth_done = std::min(depth_done, d - 1);
+            break;
+          }
+          // several histories per forked child (a fork costs more than an execution); a child that does not deliver
+          // all of its results is followed by one child per missing history
+          auto results = vs::RunJobs(jobs, a.nproc, a.job_budget + 60, left, [&](const vs::Job &j) {
+            const size_t b = static_cast<size_t>(atol(j.name.c_str()));
+            std::string outs;
+            for (size_t i = b; i < std::min(cand.size(), b + kBatch); ++i) outs += run_one(root + cand[i].hist);
+            return outs;
+          });
+          for (size_t jb = 0; jb < results.size(); ++jb) {
+            if (results[jb].status == 3) {
+              level_cut = true;
+              continue;
+            }
+            const size_t b = jb * kBatch;
+            parse_lines(results[jb].json, b, std::min(kBatch, cand.size() - b));
+          }
+          if (!level_cut) {
+            std::vector<vs::Job> singles;
+            std::vector<size_t> which;
+            for (size_t i = 0; i < cand.size(); ++i)
+              if (!ones[i].ran) {
+                singles.push_back(vs::Job{root + cand[i].hist, ""});
+                which.push_back(i);
+              }
+            if (!singles.empty()) {
+              auto r2 = vs::RunJobs(singles, a.nproc, a.job_budget + 60, std::max(1.0, a.budget - (vs::Now() - t0)),
+                                    [&](const vs::Job &j) { return run_one(j.name); });
+              for (size_t q = 0; q < r2.size(); ++q) {
+                if (r2[q].status == 3) {
+                  level_cut = true;
+                  continue;
+                }
+                parse_lines(r2[q].json, which[q], 1);
+                if (!ones[which[q]].ran) {
+                  ones[which[q]].internal = true;
+                  ones[which[q]].err = r2[q].err.empty() ? "no result" : r2[q].err;
+                }
+              }
+            }
+          }
+        }
+        std::vector<GNode> next;
+        uint64_t execs = 0, steps = 0;
+        size_t clean = 0;
+        for (size_t i = 0; i < cand.size(); ++i) {
+          auto &o = ones[i];
+          if (!o.ran && !o.internal) continue;  // not run: deadline
+          ++total_trans;
+          if (o.internal || o.nv != 0) {
+            fprintf(out, "{\"lock\":\"%s\",\"program\":\"%s\",\"status\":%d,\"err\":\"%s\",\"result\":%s}\n", kLockName,
+                    vs::JsonEscape(root + cand[i].hist).c_str(), o.internal ? 2 : 1, vs::JsonEscape(o.err).c_str(), o.json.empty() ? "null" : o.json.c_str());
+            if (o.internal) rc = 2;
+            continue;  // a history that violates something is reported, not extended
+          }
+          execs += o.ex;
+          steps += o.st;
+          ++clean;
+          char kb[24];
+          snprintf(kb, sizeof kb, ":%016" PRIx64, o.key);
+          if (seen.insert(cand[i].m.Str() + kb).second) {
+            next.push_back(cand[i]);
+            ++total_states;
+          }
+        }
+        // one aggregated row for the histories of this level that satisfied every monitor
+        fprintf(out,
+                "{\"lock\":\"%s\",\"program\":\"galg %sdepth %d: %zu histories\",\"status\":0,\"err\":\"\",\"result\":{\"programs\":%zu,\"executions\":%" PRIu64
+                ",\"steps\":%" PRIu64 ",\"choice_points\":0,\"states\":%zu,\"pruned\":0,\"blocked_execs\":0,\"cache_saturated\":0,\"bound_completed\":0,"
+                "\"exhaustive\":%s,\"n_outcomes\":1,\"outcomes\":[],\"sample_trace\":\"\",\"violations\":[]}}\n",
+                kLockName, root.c_str(), d, clean, clean, execs, steps, next.size(), level_cut ? "false" : "true");
+        if (level_cut) {
+          cut = true;
+          depth_done = std::min(depth_done, d - 1);
+          break;
+        }
+        frontier.swap(next);
+      }
+    }
+    fprintf(out, "{\"summary\":true,\"lock\":\"%s\",\"programs\":%zu,\"wall_s\":%.3f,\"layout\":\"%s\",\"galg_depth_completed\":%d,\"galg_states\":%zu,\"galg_transitions\":%zu,\"cut\":%s}\n",
+            kLockName, total_trans, vs::Now() - t0, vs::JsonEscape(LAY.note).c_str(), depth_done, total_states, total_trans, cut ? "true" : "false");
+    if (out != stdout) fclose(out);
+    return rc;
   }
   // program list
   std::vector<std::string> programs;
